@@ -138,13 +138,6 @@ def _confine(lead, n, c1, c2, c3, form):
     # 3. no response reveals the neighbour (3 messages / SECRET / UIDNEXT of decoy)
     text = "".join(lines)
     check("SECRET" not in text, f"C09/{tag}/response_reveals_outside_content", name=name, text=text[:300])
-    if kind in ("status", "select", "examine"):
-        # a name that denotes a place outside the mail root is never opened ("a/../x" denotes x, inside)
-        rel = name[1:] if name.startswith("/") and not name.startswith("//") else name
-        target = os.path.normpath(os.path.join(root, rel)) if not rel.startswith("/") else os.path.normpath(rel)
-        if not (target == root or target.startswith(root + "/")):
-            ok_lines = [ln for ln in lines if ln.startswith("t1 OK")]
-            check(not ok_lines, f"C09/{tag}/command_on_outside_name_succeeded", name=name, lines=lines[:6])
     w.shutdown()
 
 
